@@ -13,11 +13,20 @@ from ..gen import jsonvals, keys as gkeys, metadata as gmd
 from ..refs import canonjson, ed25519
 
 
-def tick(lib, rng, scratch=None, n=None):
+N_BRANCHES = 23
+
+
+def provoke(lib, rng, scratch=None):
+    """every kind of unrelated activity once (deterministic coverage of the repertoire)"""
+    for w in range(N_BRANCHES):
+        tick(lib, rng, scratch, n=1, force=w)
+
+
+def tick(lib, rng, scratch=None, n=None, force=None):
     C, S, A, M = lib.common, lib.signing, lib.authentication, lib.metadata_construction
     for _ in range(n or rng.randint(1, 3)):
         k = gkeys.key(rng.randrange(12))
-        what = rng.randrange(20)
+        what = rng.randrange(N_BRANCHES) if force is None else force
         try:
             if what == 0:
                 C.PublicKey.from_hex(k.hex)
@@ -100,6 +109,34 @@ def tick(lib, rng, scratch=None, n=None):
                 C.iso8601_time_plus_delta(__import__("datetime").timedelta(days=rng.randrange(400)))
                 M.build_delegating_metadata("key_mgr", {"pkg_mgr": {"pubkeys": [k.hex], "threshold": 1}})
                 M.build_delegating_metadata("key_mgr", {"pkg_mgr": {"pubkeys": [k.hex], "threshold": 1}}, timestamp="yesterday")
+            elif what == 20 and scratch:
+                # a file holding an integer beyond the interpreter's int<->str digit limit (the load fails)
+                fn = os.path.join(scratch, "noise-hugeint.json")
+                if not os.path.exists(fn):
+                    with open(fn, "w") as f:
+                        f.write('{"signatures": {}, "signed": {"n": ' + "9" * 5000 + "}}")
+                C.load_metadata_from_file(fn)
+            elif what == 21 and scratch and getattr(lib, "cli", None) is not None:
+                # a short interactive modify-metadata session (scripted stdin): the document is displayed, then "abort"
+                import builtins
+
+                fn = os.path.join(scratch, "noise-session.json")
+                with open(fn, "wb") as f:
+                    f.write(canonjson.canon(gmd.envelope(gmd.root_md(1, [k], 1, [gkeys.key(13)], 1))))
+                feed = [rng.choice(["1", "4"]), "1"]
+                real_input = builtins.input
+                builtins.input = lambda prompt="": feed.pop(0) if feed else (_ for _ in ()).throw(EOFError())
+                try:
+                    lib.cli.cli(["modify-metadata", fn])
+                finally:
+                    builtins.input = real_input
+            elif what == 22:
+                import gc
+
+                was = gc.isenabled()
+                gc.collect()
+                if not was:
+                    gc.enable()
             else:
                 data = canonjson.canon({"x": rng.random()})
                 A.verify_signature(ed25519.sign(k.seed, data).hex(), C.PublicKey.from_bytes(k.pub), data)
